@@ -96,7 +96,7 @@ func init() {
 	Register(&engine.Prop{
 		ID:    "C06",
 		Level: "exploration",
-		Rule: "all column indexes with <=N pages (N=4 quick, 5 thorough; 6 for int32 thorough) over 11 page kinds {null page, (min,max) over a 4-value alphabet} x 9 column types x {direct indexer, real writer+reopened file} x 9 probes; " +
+		Rule: "all column indexes with <=N pages (N=4 quick, 5 thorough; 6 for int32 thorough) over 11 page kinds {null page, (min,max) over a 4-value alphabet} x 9 column types x {direct indexer, real writer+reopened file, the same pages over two or three row groups combined by MultiRowGroup} x 9 probes; " +
 			"non-trivial = index has >=2 pages, >=1 non-null page and the probe lies within some page's bounds; distinct by (type, path, page kinds, probe)",
 		Assumptions: []string{"page content of a (min,max) page is the alphabet values in [min,max]; values outside the alphabet are probed only against index bounds"},
 		Bound:       c06Bound,
@@ -108,8 +108,8 @@ func c06Run(x *engine.X) {
 	types := c06Types()
 	// shard axis: type x path x first-page kind
 	nk := len(c06Kinds)
-	root := x.Choose(len(types)*2*nk, "type*path*page0")
-	ti, rest := root/(2*nk), root%(2*nk)
+	root := x.Choose(len(types)*3*nk, "type*path*page0")
+	ti, rest := root/(3*nk), root%(3*nk)
 	path, k0 := rest/nk, rest%nk
 	t := types[ti]
 	maxPages := 4
@@ -119,7 +119,7 @@ func c06Run(x *engine.X) {
 			maxPages = 6
 		}
 	}
-	if path == 1 && maxPages > 4 {
+	if path >= 1 && maxPages > 4 {
 		maxPages = 4 // writer path is ~100x slower per index
 		if x.Tier == "thorough" {
 			maxPages = 5
@@ -142,7 +142,21 @@ func c06Run(x *engine.X) {
 			fmt.Fprintf(&sb, "[%d..%d]", c06Kinds[k][0], c06Kinds[k][1])
 		}
 	}
-	pathName := []string{"indexer", "writer"}[path]
+	pathName := []string{"indexer", "writer", "writer(2-3 row groups)->MultiRowGroup"}[path]
+	// path 2: the pages are spread over two row groups and the index is the combined one of MultiRowGroup
+	cut, cut2 := -1, -1
+	if path == 2 {
+		if len(pages) < 2 {
+			return
+		}
+		cut = 1 + x.Choose(len(pages)-1, "rowgroupcut") // row group boundary before page cut
+		if rest := len(pages) - 1 - cut; rest > 0 {
+			if c := x.Choose(rest+1, "rowgroupcut2"); c > 0 {
+				cut2 = cut + c // a third row group
+			}
+		}
+		x.Descf("cuts=%d,%d", cut, cut2)
+	}
 	x.Descf("type=%s path=%s pages=%s", t.name, pathName, sb.String())
 
 	alpha := []parquet.Value{t.values[1], t.values[3], t.values[5], t.values[7]}
@@ -174,7 +188,14 @@ func c06Run(x *engine.X) {
 		}
 		w := parquet.NewWriter(buf, opts...)
 		cw := w.ColumnWriters()[0]
-		for _, k := range pages {
+		for pi, k := range pages {
+			if pi == cut || pi == cut2 {
+				if err := w.Flush(); err != nil {
+					x.Failf("harness", "flush", "Flush: %v", err)
+					return
+				}
+				cw = w.ColumnWriters()[0]
+			}
 			var vals []parquet.Value
 			if k == 0 {
 				for i := 0; i < 3; i++ {
@@ -205,7 +226,15 @@ func c06Run(x *engine.X) {
 			x.Failf("open-error", "type="+t.name, "OpenFile: %v", err)
 			return
 		}
-		ci, err := f.RowGroups()[0].ColumnChunks()[0].ColumnIndex()
+		var rg parquet.RowGroup = f.RowGroups()[0]
+		if path == 2 {
+			if want := 2 + b2i(cut2 > 0); len(f.RowGroups()) != want {
+				x.Failf("harness", "rowgroups", "%d row groups written, want %d", len(f.RowGroups()), want)
+				return
+			}
+			rg = parquet.MultiRowGroup(f.RowGroups()...)
+		}
+		ci, err := rg.ColumnChunks()[0].ColumnIndex()
 		if err != nil {
 			x.Failf("index-error", "type="+t.name, "ColumnIndex: %v", err)
 			return
